@@ -184,6 +184,11 @@ func C05ExtraConfigs(thorough bool) []*world.Config {
 }
 
 func C13(run *report.Run) {
+	runSingle(run, "C13", C13Configs(run.Thorough()), func(*world.Config) explore.Monitor { return &c13Mon{} }, stdOps)
+	run.Rule = ruleSingle + "; the state key additionally carries the base version and the set of keys modified since; oracle on every MakeRoot: stored names are reachable from the new root, nothing stored and same root when nothing was modified, no node of the base version rewritten unless a modified key lies in its range, <= (2h+2) writes per modified key (height unchanged); in every state IsDirty()==false implies contents == base version"
+}
+
+func C13Configs(thorough bool) []*world.Config {
 	var cfgs []*world.Config
 	B, M := ref.FormatBinary, ref.FormatMarshaler
 	cfgs = append(cfgs, world.UintCfg(2, urange(1, 5), 1, B, "none"))
@@ -194,7 +199,7 @@ func C13(run *report.Run) {
 	for _, l := range lkeyQuick[:4] {
 		cfgs = append(cfgs, world.LKeyCfg(2, l[:4], 1, B, "none"))
 	}
-	if run.Thorough() {
+	if thorough {
 		cfgs = append(cfgs, world.UintCfg(2, urange(0, 8), 1, B, "none"))
 		cfgs = append(cfgs, world.UintCfg(2, urange(1, 5), 2, B, "none"))
 		cfgs = append(cfgs, world.UintCfg(4, ulist(1, 2, 3, 4, 5, 8, 16), 1, M, "none"))
@@ -203,11 +208,15 @@ func C13(run *report.Run) {
 		}
 		cfgs = append(cfgs, world.StringCfg(2, []uint8{0, 1, 0, 2, 0}, B, "none"))
 	}
-	runSingle(run, "C13", cfgs, func(*world.Config) explore.Monitor { return &c13Mon{} }, stdOps)
-	run.Rule = ruleSingle + "; the state key additionally carries the base version and the set of keys modified since; oracle on every MakeRoot: stored names are reachable from the new root, nothing stored and same root when nothing was modified, no node of the base version rewritten unless a modified key lies in its range, <= (2h+2) writes per modified key (height unchanged); in every state IsDirty()==false implies contents == base version"
+	return cfgs
 }
 
 func C16(run *report.Run) {
+	runSingle(run, "C16", C16Configs(run.Thorough()), func(*world.Config) explore.Monitor { return &c16Mon{} }, stdOps)
+	run.Rule = ruleSingle + " on a cache-less recording store; oracle: Persist.Load calls per API call: LoadMast<=1, Clone<=1, Get<=height+1 (every key and absent probe, in every state), Insert/Delete<=2(height+1) when the height did not change"
+}
+
+func C16Configs(thorough bool) []*world.Config {
 	var cfgs []*world.Config
 	B, M := ref.FormatBinary, ref.FormatMarshaler
 	cfgs = append(cfgs, world.UintCfg(2, urange(1, 5), 1, B, "none"))
@@ -217,13 +226,12 @@ func C16(run *report.Run) {
 	for _, l := range lkeyQuick {
 		cfgs = append(cfgs, world.LKeyCfg(2, l, 1, B, "none"))
 	}
-	if run.Thorough() {
+	if thorough {
 		cfgs = append(cfgs, world.UintCfg(2, urange(1, 7), 2, B, "none"))
 		cfgs = append(cfgs, world.UintCfg(3, ulist(1, 2, 3, 4, 5, 6, 7, 8, 9, 12, 18), 1, B, "none"))
 		for _, l := range allLayerAssignments(5, 3) {
 			cfgs = append(cfgs, world.LKeyCfg(2, l, 1, B, "none"))
 		}
 	}
-	runSingle(run, "C16", cfgs, func(*world.Config) explore.Monitor { return &c16Mon{} }, stdOps)
-	run.Rule = ruleSingle + " on a cache-less recording store; oracle: Persist.Load calls per API call: LoadMast<=1, Clone<=1, Get<=height+1 (every key and absent probe, in every state), Insert/Delete<=2(height+1) when the height did not change"
+	return cfgs
 }
